@@ -25,19 +25,19 @@ const ModPath = "github.com/oauth2-proxy/oauth2-proxy/v7"
 
 // Program is the type-checked, SSA-built production program: package main and its dependency closure.
 type Program struct {
-	Repo    string
-	GOOS    string
-	Fset    *token.FileSet
-	Main    *packages.Package
-	All     []*packages.Package          // every package in deps(main), including std and third party
-	Mod     map[string]*packages.Package // module packages in deps(main), keyed by short path ("main", "pkg/encryption", ...)
-	SSA     *ssa.Program
-	ModFns  []*ssa.Function // every function (incl. anonymous, excl. synthetic wrappers) whose package is in Mod, sorted
-	byName  map[string]*ssa.Function
-	astFn   map[*ssa.Function]ast.Node
-	cg      *callgraph.Graph
-	allFns  map[*ssa.Function]bool
-	Outside []string // module packages outside deps(main) (test helpers)
+	Repo     string
+	GOOS     string
+	Fset     *token.FileSet
+	Main     *packages.Package
+	All      []*packages.Package          // every package in deps(main), including std and third party
+	Mod      map[string]*packages.Package // module packages in deps(main), keyed by short path ("main", "pkg/encryption", ...)
+	SSA      *ssa.Program
+	ModFns   []*ssa.Function // every function (incl. anonymous, excl. synthetic wrappers) whose package is in Mod, sorted
+	byName   map[string]*ssa.Function
+	astFn    map[*ssa.Function]ast.Node
+	cg       *callgraph.Graph
+	allFns   map[*ssa.Function]bool
+	Outside  []string // module packages outside deps(main) (test helpers)
 	unstable map[*ssa.Global]bool
 }
 
